@@ -30,6 +30,11 @@ func parseInStream(ns string, b []byte) ([]xml.Token, error) {
 	if err != nil {
 		return nil, err
 	}
+	// encoding/xml accepts a start tag that has the same attribute twice; XML does not
+	// (well-formedness constraint "unique att spec"), nor do other parsers
+	if err := duplicateAttr(b); err != nil {
+		return nil, err
+	}
 	if len(toks) < 2 {
 		return nil, fmt.Errorf("short document")
 	}
@@ -49,6 +54,29 @@ func parseInStream(ns string, b []byte) ([]xml.Token, error) {
 		out = append(out, t)
 	}
 	return out, nil
+}
+
+func duplicateAttr(b []byte) error {
+	d := xml.NewDecoder(bytes.NewReader(b))
+	for {
+		tok, err := d.RawToken()
+		if err != nil {
+			return nil
+		}
+		if s, ok := tok.(xml.StartElement); ok {
+			seen := map[xml.Name]bool{}
+			for _, a := range s.Attr {
+				if seen[a.Name] {
+					n := a.Name.Local
+					if a.Name.Space != "" {
+						n = a.Name.Space + ":" + n
+					}
+					return fmt.Errorf("attribute %q appears twice in <%s>: not well-formed", n, s.Name.Local)
+				}
+				seen[a.Name] = true
+			}
+		}
+	}
 }
 
 var hex16 = regexp.MustCompile(`^[0-9a-f]{16}$`)
